@@ -42,7 +42,7 @@ CHECKS = {
          "DESIGN.md §3 C12"),
  "C13": ("bounded-exhaustive generation of macro signatures x default subsets x argument counts/kinds x definition routes against a reference binding model; all base-case-free call graphs over <=3 macros x file placements executed in isolated sub-processes",
          "Every signature/call combination within the bounds is rendered through a local definition, an import and an aliased import and compared with the reference binding; every recursion graph is run in a fresh process whose death (stack overflow) or hang is a violation, and must yield an execution error.",
-         "Process isolation with a 64 MB stack cap makes unbounded recursion observable within a second; reference binding: DESIGN.md Appendix A.5.",
+         "Process isolation with a 32 MB stack cap makes unbounded recursion observable within a second; reference binding: DESIGN.md Appendix A.5.",
          "DESIGN.md §3 C13"),
  "C10": ("bounded-exhaustive generation of inheritance chains (depth, per-level block options absent/override/override+Super/new nested block, five base placements) rendered at every level against a reference block resolution; invalid shapes must be compile errors",
          "All chains within the bounds are served from an in-memory loader; the leaf is compiled first, then every level and finally the base again are rendered and compared with an independent resolution (most-derived wins, Super = next less-derived, empty at the bottom, junk outside blocks ignored, base unaffected by its children).",
@@ -68,6 +68,10 @@ CHECKS = {
          "For each ban target a template using it by every route must be refused (at compile time; lazy includes at execution), harness-registered probe tag/filter counters must stay 0, a banned include/ssi/import/extends must fetch nothing, other sets are unaffected and a control template behaves byte-identically to a fresh set. Every history over BanTag/BanFilter/From*/Render* up to the depth bound is replayed on the real set; each return value and a final vector of six probe verdicts must equal the model's.",
          "Histories are enumerated without state merging (every path is executed on a fresh real set); the abstract state space has 16 states. Render* shortcuts panic with *Error on a compile error: counted as refusal.",
          "DESIGN.md §3 C03"),
+ "C01": ("bounded-exhaustive enumeration in seven layers (raw strings, token sequences per registered tag, value universe x access paths, every filter x input x argument by three routes, filter 2-chains, tag/operator schemas filled from the universe, composition cycles / deep nesting / resource caps) executed in isolated worker processes with crash and hang attribution",
+         "Every case of every layer within the bounds is compiled and, if it compiles, executed against a context holding the whole value universe; workers are separate processes with a 32 MB stack cap and a progress watchdog, a dead or hung worker is attributed to the case it had announced and the case is re-run in isolation; risky families run one sub-process per case. Oracle: exactly one of template/error, Execute returns, no panic, process alive, no hang.",
+         "The tag/filter lists come from the registry hooks (a newly registered tag or filter is covered). Composition cycles kill the process on the pinned tree: 14 recorded known findings, one per cycle shape.",
+         "DESIGN.md §3 C01"),
 }
 
 NOT_YET = {}
